@@ -36,6 +36,7 @@ THEOREMS = [
     "Nix.C18.C18_resumable",
     "Nix.C18.C18_resumable_total",
     "Nix.C18.C18_resumable_history",
+    "Nix.C18.C18_resumable_history_total",
     "Nix.C18.C18_resumable_clean",
     "Nix.C18.C18_resumable_steps",
     "Nix.C18.C18_idempotent",
